@@ -932,6 +932,8 @@ impl LdapConnAsync {
                         msgmap.1.remove(&id);
                     } else {
                         warn!("unmatched id: {}", id);
+                        // Not the response to the single operation: keep reading.
+                        continue;
                     }
                 },
             };
